@@ -204,19 +204,31 @@ def normAxis (rank : Nat) (axis : Int) : Except Err Nat :=
 /-- `tuple(shape[idx] for idx in other_axes)` -/
 def otherDims (shape : List Nat) (ax : Nat) : List Nat := shape.take ax ++ shape.drop (ax + 1)
 
+/-- all entries present, or `none` -/
+def allSome {β : Type} : List (Option β) → Option (List β)
+  | [] => some []
+  | none :: _ => none
+  | some x :: xs =>
+    match allSome xs with
+    | none => none
+    | some r => some (x :: r)
+
 /-- the feature vectors of a row-major array of shape `pre ++ [F] ++ post` (`A = prod pre`,
 `B = prod post`) along the `F` axis, in row-major order of the other axes:
 vector `a*B + b` is `[data[(a*F + i)*B + b] for i in range(F)]`.  `none` iff `data` is too short. -/
 def vectorsAlong {α : Type} (A F B : Nat) (data : List α) : Option (List (List α)) :=
-  (List.range (A * B)).mapM fun ab =>
-    (List.range F).mapM fun i => data[((ab / B) * F + i) * B + ab % B]?
+  allSome ((List.range (A * B)).map fun ab =>
+    allSome ((List.range F).map fun i => data[((ab / B) * F + i) * B + ab % B]?))
+
+/-- `ys[a*B + b][i]` for the flat index `k = (a*F + i)*B + b` -/
+def unviewAt {α : Type} (F B : Nat) (ys : List (List α)) (k : Nat) : Option α :=
+  match ys[(k / (F * B)) * B + k % B]? with
+  | none => none
+  | some v => v[(k / B) % F]?
 
 /-- inverse re-layout: `out[(a*F + i)*B + b] = ys[a*B + b][i]` -/
 def unview {α : Type} (A F B : Nat) (ys : List (List α)) : Option (List α) :=
-  (List.range (A * F * B)).mapM fun k =>
-    match ys[(k / (F * B)) * B + k % B]? with
-    | none => none
-    | some v => v[(k / B) % F]?
+  allSome ((List.range (A * F * B)).map (unviewAt F B ys))
 
 structure View (α : Type) where
   A : Nat
